@@ -1600,6 +1600,18 @@ FROM (
                     return f"'{canonical.replace(chr(39), chr(39) * 2)}'"
             return f"vtl_period_normalize(CAST({expr} AS VARCHAR))"
 
+        if target_lower in ("time", "timeinterval"):
+            # documented promotions to Time: a Date d becomes d/d, a Time_Period its first day/last day
+            if source_lower == "date":
+                day = f"CAST(CAST({expr} AS DATE) AS VARCHAR)"
+                return f"({day} || '/' || {day})"
+            if source_lower in ("time_period", "timeperiod"):
+                parsed = f"vtl_period_parse({expr})"
+                return (
+                    f"(CAST(vtl_tp_start_date({parsed}) AS VARCHAR) || '/' || "
+                    f"CAST(vtl_tp_end_date({parsed}) AS VARCHAR))"
+                )
+
         if target_type_str == "Date":
             if source_lower in ("time_period", "timeperiod"):
                 return f"vtl_period_to_date({expr})"
